@@ -1,6 +1,7 @@
 package core
 
 import (
+	"github.com/jsightapi/jsight-api-go-library/directive"
 	"github.com/jsightapi/jsight-api-go-library/jerr"
 )
 
@@ -11,6 +12,12 @@ func (core *JApiCore) processCurrentDirective() *jerr.JApiError {
 
 	if je := core.processContext(core.currentDirective, &core.directives); je != nil {
 		return je
+	}
+
+	// JSIGHT is the first directive of the document, whatever stands before it: the check made when the
+	// catalog is built does not see a MACRO (macros are taken out of the list before).
+	if core.currentDirective.Type() == directive.Jsight && core.directives[0].Type() != directive.Jsight {
+		return core.directives[0].KeywordError("JSIGHT should be the first directive")
 	}
 
 	core.currentDirective = nil
